@@ -32,7 +32,7 @@ CHECKS["C12"] = dict(
     stages=[dict(harness="hist", variant="plain", args=["--mode", "flush"], require=["blocks_validated"]),
             dict(harness="hist", variant="plain", args=["--mode", "flush", "--bfs", "30", "--abstract", "1"], prefix="bfs_", require=["bfs_fixpoints"]),
             dict(harness="val", variant="asan", args=["--mode", "values"], prefix="long_")],
-    rule="stateless DFS: for each of 24 configurations (max_block_items {0,1,2,3}x{1,2}, hints {all, AEC+MM off, QR time/port only}) every history of length 0..D over the alphabet; a history is non-trivial if it has >= 1 operation; each is distinct by construction",
+    rule="stateless DFS: for each of 24 configurations (max_block_items {0,1,2,3}x{1,2}, hints {all, AEC+MM off, QR time/port only}) + 2 with limits beyond 32 bits ({2^32+2, 2^32}, {2^63, 2^64-1}; stateless search only) every history of length 0..D over the alphabet; a history is non-trivial if it has >= 1 operation; each is distinct by construction",
     bound_quick="stateless: every history of length <= 5 (11^5 per configuration); BFS with state de-duplication: run to the fixpoint of the abstract state space in all 24 configurations (deepest new state at depth 13, bound 30)", bound_thorough="stateless: every history of length <= 6; BFS: same fixpoint",
     assumptions=["the reference model (harness/model.hpp) states the intended buffering contract", "record contents are drawn from a fixed pool (7 QR, 3 AEC, 4 MM shapes)"],
 )
@@ -78,9 +78,10 @@ CHECKS["C02"] = dict(
     stages=[dict(harness="hist", variant="plain", args=["--mode", "wellformed"]),
             dict(harness="blk", variant="asan", args=["--mode", "direct"], prefix="direct_"),
             dict(harness="val", variant="asan", args=["--mode", "align"], prefix="align_"),
+            dict(harness="ser", variant="asan", args=["--mode", "wellformed"], prefix="ser_"),
             dict(harness="hist", variant="plain", args=["--mode", "wellformed", "--bfs", "7", "--abstract", "1"], prefix="bfs_", tiers=("quick",)),
             dict(harness="hist", variant="plain", args=["--mode", "wellformed", "--bfs", "9", "--abstract", "1"], prefix="bfs_", tiers=("thorough",))],
-    rule="stateless DFS over 13 operations incl. BlockStatistics() (present but empty) on QR/AEC/MM calls, unstorable records, rotations, parameter-set additions x 3 configurations (max_block_items 0/2/10000)",
+    rule="stateless DFS over 13 operations incl. BlockStatistics() (present but empty) on QR/AEC/MM calls, unstorable records, rotations, parameter-set additions x 4 configurations (max_block_items 0/2/10000; hint masks that keep every other member of each map); E-SER: every serialisable structure x member subsets (all 2^17 signature subsets in the thorough tier) x value widths x buffer fill levels: the bytes one write() call appends are exactly one well-formed CBOR item (declared map/array lengths match what follows)",
     bound_quick="length <= 4", bound_thorough="length <= 5",
     assumptions=["CDDL '+' (non-empty) cardinalities are not enforced (DESIGN 8.2)"],
 )
@@ -202,7 +203,7 @@ CHECKS["C11"] = dict(
 CHECKS["C19"] = dict(
     level="model_checking", engine="E-BLK",
     technique="explicit-state model checking of the implementation under AddressSanitizer: every (content, way of copying, fate of the source, follow-up operation sequence) combination, differential against a freshly built block",
-    level_text="Contents {empty, one full QR, QR+AEC+MM with RR lists, 300 distinct values per table} x ways {copy ctor, move ctor, copy assign, move assign, the four CdnsBlockRead variants, block = reader.read_block()} x fate of the source {kept, values added, cleared, cleared and refilled with different values, destroyed} x every sequence of follow-up operations up to the depth bound from {re-add an existing value (9 tables), add new values, get, generic add sharing values, repeated address event, serialise, read_generic_*}: every observation (indices, sizes, serialised bytes, generic records) must equal that of the same operations on a freshly built block, the source must not be affected by operations on the copy, and AddressSanitizer must stay silent (forked workers attribute a use-after-free to the exact case).",
+    level_text="Contents {empty, one full QR, QR+AEC+MM with RR lists, 300 distinct values per table, tables holding duplicates, table entries without any record, statistics only} x ways {copy ctor, move ctor, copy assign, move assign, the four CdnsBlockRead variants, block = reader.read_block()} x fate of the source {kept, values added, cleared, cleared and refilled with different values, destroyed} x every sequence of follow-up operations up to the depth bound from {re-add an existing value (9 tables), add new values, get, generic add sharing values, repeated address event, serialise, read_generic_*}: every observation (indices, sizes, serialised bytes, generic records) must equal that of the same operations on a freshly built block, the source must not be affected by operations on the copy, and AddressSanitizer must stay silent (forked workers attribute a use-after-free to the exact case).",
     level_note="Trusted: differential oracle (fresh block built / read the same way), ASan. Quarantine 32 MiB keeps freed source blocks poisoned while the copy is exercised.",
     stages=[dict(harness="blk", variant="asan", args=["--mode", "copy"])],
     rule="product enumerated exhaustively; follow-up sequences by stateless DFS; all distinct and non-trivial",
